@@ -123,7 +123,7 @@ def make_content(form):
         return form[1]
     if k == "note":
         return Note(form[1], form[2])
-    if k == "names":
+    if k == "names" or k == "dashes":
         return list(form[1])
     if k == "notes":
         return [Note(n, o) for n, o in form[1]]
@@ -144,6 +144,8 @@ def content_names(form):
         return [form[1]]
     if k in ("names", "nc"):
         return list(form[1])
+    if k == "dashes":
+        return [x.split("-")[0] for x in form[1]]
     if k == "notes":
         return [n for n, o in form[1]]
     return []
@@ -1129,6 +1131,8 @@ def form_pitches(form):
         return [score.pitch_of(n, 4) for n in form[1]]
     if k == "notes":
         return [score.pitch_of(n, o) for n, o in form[1]]
+    if k == "dashes":
+        return [score.pitch_of(x.split("-")[0], int(x.split("-")[1])) for x in form[1]]
     if k == "nc":
         # voiced upward from octave 4 by the container
         out = []
@@ -1306,7 +1310,12 @@ class C14(Base):
                 self.fail("C14.reject_atomic", "%s raised %s but the track changed" % (what, name), **feats)
                 self.resync(t)
             elif len(t.obj.bars) != nb_before:
-                self._tolerate_fresh_bar(t, what, feats)
+                if out_of_range and name == "InstrumentRangeError":
+                    # the range gate refuses before anything is touched: not even an empty bar may appear
+                    self.fail("C14.range", "%s of %r was refused with the range error but the track went from %d to %d bars" % (what, form, nb_before, len(t.obj.bars)), raised=name, left_bar=True, **feats)
+                    self.resync(t)
+                else:
+                    self._tolerate_fresh_bar(t, what, feats)
             self.note_outcome(what, outcome, self.state())
             return
         if out_of_range:
@@ -1387,7 +1396,7 @@ class C14(Base):
         if t is None:
             return
         form = op["content"]
-        if form[0] in ("none", "names", "notes", "empty"):
+        if form[0] in ("none", "names", "notes", "empty", "dashes"):
             return  # '+' takes a note, a name, a container or a bar
         content = make_content(form)
         self._add(t, form, [4, 0, 1, 1], lambda: t.obj + content, "plus", {"op": "plus"})
@@ -1535,7 +1544,7 @@ class C14(Base):
         if c is None:
             return
         form = op["content"]
-        if form[0] in ("none", "names", "notes", "empty"):
+        if form[0] in ("none", "names", "notes", "empty", "dashes"):
             return
         if any(t.instr != "none" for t in c["tracks"]):
             return
@@ -1684,7 +1693,7 @@ def gen_c14_form(rng, out_p):
             if score.pitch_of(n, o) not in seen:
                 seen.add(score.pitch_of(n, o))
                 out.append([n, o])
-        return ["notes", out]
+        return ["notes", out] if rng.random() < 0.5 else ["dashes", ["%s-%d" % (n, o) for n, o in out]]
     if rng.random() < out_p:
         return rng.choice([["note", "C", 9], ["note", "B", 8], ["note", "C", 0], ["note", "D", 3], ["dash", "C-9"], ["note", "F", 7], ["note", "E", 3], ["note", "E", 7], ["note", "C#", 8], ["note", "F", 0]])
     if r < 0.25:
@@ -1693,8 +1702,16 @@ def gen_c14_form(rng, out_p):
         return ["dash", "%s-%d" % (nm(), rng.randrange(3, 7))]
     if r < 0.5:
         return ["note", nm(), rng.randrange(3, 7)]
-    if r < 0.62:
+    if r < 0.58:
         return ["names", sorted(set(nm() for _ in range(rng.randrange(1, 4))))]
+    if r < 0.64:
+        ds, seen = [], set()
+        for _ in range(rng.randrange(1, 5)):
+            n, o = nm(), rng.randrange(3, 7)
+            if score.pitch_of(n, o) not in seen:
+                seen.add(score.pitch_of(n, o))
+                ds.append("%s-%d" % (n, o))
+        return ["dashes", ds]
     if r < 0.75:
         return ["nc", sorted(set(nm() for _ in range(rng.randrange(1, 4))))]
     return ["none"]
